@@ -31,6 +31,7 @@ func RunC12(c *Ctx, r *Report) {
 	w.lengthSlotRule(r, prefix+"length-slots")
 	w.nestedDispatchRule(r, prefix+"nested-dispatch")
 	c.akaRules(r, prefix, "stability")
+	c.akaPaddingRule(r, prefix)
 	c.akaOrderRule(r, prefix+"aka.order")
 }
 
@@ -190,6 +191,11 @@ func RunC14(c *Ctx, r *Report) {
 		}
 		r.Check(ok, ruleV, "(*eap.EapAkaPrimeAttr).GetValue", c.Pos(gv.Pos()), "returns the value field", "GetValue does not return the stored value")
 	}
+	c.akaPaddingRule(r, prefix)
+}
+
+// akaPaddingRule: C14 rule (also a necessary condition of C12: what the decoder skipped as padding is regenerated).
+func (c *Ctx) akaPaddingRule(r *Report, prefix string) {
 	// encoder pads to the declared length
 	ruleP := prefix + "aka.padding"
 	r.Rule(ruleP, "Marshal pads every attribute with zero octets up to 4*length: padding = 4*length - header - len(value), negative is an error", 1)
